@@ -7,7 +7,7 @@
 V=$(cd "$(dirname "$0")/.." && pwd)
 W=${1:-4}
 OUT=$V/seeded/${SWEEP_OUT:-SWEEP.txt}; : > "$OUT.tmp"
-ls "$V/seeded" | grep '^C[0-9][0-9]-' | grep -E "${SEEDS:-.}" > /root/work/sweep-all.txt
+ls "$V/seeded" | grep '^C[0-9][0-9]-' | grep -E -e "${SEEDS:-.}" > /root/work/sweep-all.txt
 i=0
 while [ $i -lt $W ]; do
   ( D=/root/work/sweep$i; rm -rf $D; cp -a "$V" $D; rm -f $D/.build/lock* 
